@@ -1,2 +1,116 @@
 import Rscp.Model.Config
 import Rscp.Lemmas.Crypt
+namespace Rscp.Lemmas.Config
+open Rscp Rscp.Model
+
+theorem dflt_port : (dflt "Port").toNat = 5033 := by decide
+theorem dflt_heartbeat : dflt "HeartbeatInterval" = 10000000000 := by decide
+theorem dflt_conn : dflt "ConnectionTimeout" = 3000000000 := by decide
+theorem dflt_send : dflt "SendTimeout" = 3000000000 := by decide
+theorem dflt_recv : dflt "ReceiveTimeout" = 3000000000 := by decide
+theorem dflt_buf : (dflt "ReceiveBufferBlockSize").toNat = 1 := by decide
+theorem dflt_cs : (dflt "UseChecksum" != 0) = true := by decide
+
+/-- the names of the missing required fields -/
+def missingOf (c : Config) : List String :=
+  (if c.address = [] then ["address"] else []) ++ (if c.username = [] then ["username"] else []) ++
+  (if c.password = [] then ["password"] else []) ++ (if c.key = [] then ["key"] else [])
+
+/-- the configuration with the defaults filled in (all but the checksum option) -/
+def eff (c : Config) : Config :=
+  { address := c.address
+    port := if c.port = 0 then 5033 else c.port
+    username := c.username
+    password := c.password
+    key := c.key
+    heartbeat := if c.heartbeat ≤ 1000000000 then 10000000000 else c.heartbeat
+    connTimeout := if c.connTimeout ≤ 0 then 3000000000 else c.connTimeout
+    sendTimeout := if c.sendTimeout ≤ 0 then 3000000000 else c.sendTimeout
+    recvTimeout := if c.recvTimeout ≤ 0 then 3000000000 else c.recvTimeout
+    useChecksum := c.useChecksum
+    bufBlocks := if c.bufBlocks = 0 ∨ c.bufBlocks > 2049 then 1 else c.bufBlocks }
+
+theorem len_zero_iff (l : List Byte) : ((l.length : Int) == 0) = true ↔ l = [] := by
+  cases l <;> simp <;> omega
+
+theorem missingOf_eq_nil (c : Config) :
+    missingOf c = [] ↔ (c.address ≠ [] ∧ c.username ≠ [] ∧ c.password ≠ [] ∧ c.key ≠ []) := by
+  unfold missingOf
+  by_cases h1 : c.address = [] <;> by_cases h2 : c.username = [] <;> by_cases h3 : c.password = [] <;>
+    by_cases h4 : c.key = [] <;> simp [h1, h2, h3, h4]
+
+/-- the defaults chain of `check` -/
+def chain (c : Config) : Config :=
+  let c := if Gen.Leaf.check_portUnset c.port then { c with port := (dflt "Port").toNat } else c
+  let c := if Gen.Leaf.check_heartbeatUnset c.heartbeat then { c with heartbeat := dflt "HeartbeatInterval" } else c
+  let c := if Gen.Leaf.check_connTimeoutUnset c.connTimeout then { c with connTimeout := dflt "ConnectionTimeout" } else c
+  let c := if Gen.Leaf.check_sendTimeoutUnset c.sendTimeout then { c with sendTimeout := dflt "SendTimeout" } else c
+  let c := if Gen.Leaf.check_recvTimeoutUnset c.recvTimeout then { c with recvTimeout := dflt "ReceiveTimeout" } else c
+  let c := if Gen.Leaf.check_bufBlocksUnset c.bufBlocks then { c with bufBlocks := (dflt "ReceiveBufferBlockSize").toNat } else c
+  c
+
+/-- the defaults chain as one record -/
+theorem chain_eq (c : Config) : chain c = eff c := by
+  simp only [chain, Gen.Leaf.check_portUnset, Gen.Leaf.check_heartbeatUnset, Gen.Leaf.check_connTimeoutUnset,
+    Gen.Leaf.check_sendTimeoutUnset, Gen.Leaf.check_recvTimeoutUnset, Gen.Leaf.check_bufBlocksUnset,
+    dflt_port, dflt_heartbeat, dflt_conn, dflt_send, dflt_recv, dflt_buf, eff]
+  by_cases h1 : c.port = 0 <;> by_cases h2 : c.heartbeat ≤ 1000000000 <;> by_cases h3 : c.connTimeout ≤ 0 <;>
+    by_cases h4 : c.sendTimeout ≤ 0 <;> by_cases h5 : c.recvTimeout ≤ 0 <;>
+    by_cases h6 : (c.bufBlocks = 0 ∨ c.bufBlocks > 2049) <;>
+    simp [h1, h2, h3, h4, h5, h6]
+
+/-- the list `check` collects -/
+def rawMissing (c : Config) : List String :=
+  (if Gen.Leaf.check_noAddress c.address.length then ["address"] else []) ++
+  (if Gen.Leaf.check_noUsername c.username.length then ["username"] else []) ++
+  (if Gen.Leaf.check_noPassword c.password.length then ["password"] else []) ++
+  (if Gen.Leaf.check_noKey c.key.length then ["key"] else [])
+
+theorem rawMissing_eq (c : Config) : rawMissing c = missingOf c := by
+  simp only [rawMissing, Gen.Leaf.check_noAddress, Gen.Leaf.check_noUsername, Gen.Leaf.check_noPassword,
+    Gen.Leaf.check_noKey, len_zero_iff, missingOf]
+
+theorem anyMissing_iff (l : List String) : Gen.Leaf.check_anyMissing l.length = true ↔ l ≠ [] := by
+  cases l <;> simp [Gen.Leaf.check_anyMissing] <;> omega
+
+theorem checkConfig_unfold (c : Config) :
+    checkConfig c =
+      if Gen.Leaf.check_anyMissing (rawMissing c).length then .missing (rawMissing c) else
+      match (chain c).useChecksum with
+      | .otherType => .badChecksumType
+      | .unset => .ok { chain c with useChecksum := .bool (dflt "UseChecksum" != 0) }
+      | .bool _ => .ok (chain c) := by
+  unfold checkConfig chain rawMissing
+  rfl
+
+/-- `check` in closed form -/
+theorem checkConfig_eq (c : Config) :
+    checkConfig c =
+      if missingOf c ≠ [] then .missing (missingOf c) else
+      match c.useChecksum with
+      | .otherType => .badChecksumType
+      | .unset => .ok { eff c with useChecksum := .bool true }
+      | .bool _ => .ok (eff c) := by
+  rw [checkConfig_unfold, rawMissing_eq, chain_eq, dflt_cs]
+  have hu : (eff c).useChecksum = c.useChecksum := rfl
+  rw [hu]
+  by_cases hm : missingOf c = []
+  · rw [if_neg (by rw [anyMissing_iff]; exact fun h => h hm), if_neg (fun h => h hm)]
+  · rw [if_pos ((anyMissing_iff _).2 hm), if_pos hm]
+
+/-- the four ways `check` can end -/
+theorem checkConfig_cases (c : Config) :
+    (missingOf c ≠ [] ∧ checkConfig c = .missing (missingOf c)) ∨
+    (missingOf c = [] ∧ c.useChecksum = .otherType ∧ checkConfig c = .badChecksumType) ∨
+    (missingOf c = [] ∧ c.useChecksum = .unset ∧ checkConfig c = .ok { eff c with useChecksum := .bool true }) ∨
+    (missingOf c = [] ∧ (∃ b, c.useChecksum = .bool b) ∧ checkConfig c = .ok (eff c)) := by
+  rw [checkConfig_eq]
+  by_cases hm : missingOf c = []
+  · rw [if_neg (fun h => h hm)]
+    cases hc : c.useChecksum with
+    | unset => exact Or.inr (Or.inr (Or.inl ⟨hm, rfl, rfl⟩))
+    | bool b => exact Or.inr (Or.inr (Or.inr ⟨hm, ⟨b, rfl⟩, rfl⟩))
+    | otherType => exact Or.inr (Or.inl ⟨hm, rfl, rfl⟩)
+  · rw [if_pos hm]; exact Or.inl ⟨hm, rfl⟩
+
+end Rscp.Lemmas.Config
